@@ -124,6 +124,10 @@ class SourceAD(MVPN):
             )
         cursor += sourceiplen
 
+        # the source length is the peer's: it must leave room for the group length octet
+        if cursor >= len(packed):
+            raise Notify(3, 5, f'Source Active A-D route is too short for a source of {sourceiplen * 8} bits.')
+
         # Validate group IP length
         groupiplen = int(packed[cursor] / 8)
         if groupiplen != IPv4.BYTES and groupiplen != IPv6.BYTES:
